@@ -516,5 +516,6 @@ pub fn run(ctx: &Ctx) -> Vec<Eng> {
             });
         }
     }
-    vec![e1, e2, e3, e4, e5, eT]
+    let ew = crate::c05::wiring_engine("c04-input-wirings", &[0], 5, budget);
+    vec![e1, e2, e3, e4, e5, eT, ew]
 }
